@@ -75,6 +75,8 @@ pub mod prelude {
     pub use crate::lex::TokenLocation;
 }
 
+// A value that carries tags (every number a read word hands back does) is still the value it is:
+// the predicates and accessors look at `value()`, as every word of the language does.
 pub mod c_api {
     use std::ptr::{null, null_mut};
 
@@ -116,7 +118,7 @@ pub mod c_api {
 
     #[no_mangle]
     pub unsafe extern "C" fn xeh_is_nil(val: *const Xcell) -> bool {
-        match *val {
+        match (*val).value() {
             Xcell::Nil => true,
             _ => false,
         }
@@ -124,7 +126,7 @@ pub mod c_api {
 
     #[no_mangle]
     pub unsafe extern "C" fn xeh_is_int(val: *const Xcell) -> bool {
-        match *val {
+        match (*val).value() {
             Xcell::Int(_) => true,
             _ => false,
         }
@@ -132,7 +134,7 @@ pub mod c_api {
 
     #[no_mangle]
     pub unsafe extern "C" fn xeh_is_real(val: *const Xcell) -> bool {
-        match *val {
+        match (*val).value() {
             Xcell::Real(_) => true,
             _ => false,
         }
@@ -140,7 +142,7 @@ pub mod c_api {
 
     #[no_mangle]
     pub unsafe extern "C" fn xeh_is_string(val: *const Xcell) -> bool {
-        match *val {
+        match (*val).value() {
             Xcell::Str(_) => true,
             _ => false,
         }
@@ -148,7 +150,7 @@ pub mod c_api {
 
     #[no_mangle]
     pub unsafe extern "C" fn xeh_is_vector(val: *const Xcell) -> bool {
-        match *val {
+        match (*val).value() {
             Xcell::Vector(_) => true,
             _ => false,
         }
@@ -156,7 +158,7 @@ pub mod c_api {
 
     #[no_mangle]
     pub unsafe extern "C" fn xeh_is_bitstr(val: *const Xcell) -> bool {
-        match *val {
+        match (*val).value() {
             Xcell::Bitstr(_) => true,
             _ => false,
         }
@@ -164,7 +166,7 @@ pub mod c_api {
 
     #[no_mangle]
     pub unsafe extern "C" fn xeh_bitstr_bytes(val: *const Xcell) -> *const u8 {
-        match &*val {
+        match (*val).value() {
             Xcell::Bitstr(s) => 
                 if let Some(bytes) = s.bytestr() {
                     bytes.as_ptr()
@@ -177,7 +179,7 @@ pub mod c_api {
 
     #[no_mangle]
     pub unsafe extern "C" fn xeh_bitstr_len(val: *const Xcell) -> usize {
-        match &*val {
+        match (*val).value() {
             Xcell::Bitstr(s) => s.len(),
             _ => 0,
         }
@@ -185,7 +187,7 @@ pub mod c_api {
 
     #[no_mangle]
     pub unsafe extern "C" fn xeh_vector_len(val: *const Xcell) -> usize {
-        match &*val {
+        match (*val).value() {
             Xcell::Vector(v) => v.len(),
             _ => 0,
         }
@@ -193,7 +195,7 @@ pub mod c_api {
 
     #[no_mangle]
     pub unsafe extern "C" fn xeh_vector_at(val: *const Xcell, idx: usize) -> *mut Xcell {
-        match &*val {
+        match (*val).value() {
             Xcell::Vector(v) => {
                 if let Some(c) = v.get(idx) {
                     Box::into_raw(Box::new(c.clone()))
